@@ -20,6 +20,13 @@ def run(ctx):
     U.u5_refusal(ctx)
     from ..engines import varkind as V
     V.v7_zeroes(ctx)
+    # sampling translates the requested parameters through the same tables
+    V.v4_parameter_translation(ctx)
+    V.v6_derived_constructors(ctx)
+    V.v8_queries_do_not_mutate_constructor_state(ctx)
+    ctx.floor("V4", 4)
+    ctx.floor("V6", 8)
+    ctx.floor("V8", 1)
     ctx.floor("V7", 2)
     ctx.floor("U1", 2)
     ctx.floor("U2", 9)
